@@ -57,6 +57,13 @@ func c10Programs(depth int) []*gen.Program {
 		mk(l)
 		mk(l, gen.Lit{S: "b"})
 	}
+	// the outer scan under every amount clause: skipped / windowed empty matches must not stall it
+	for _, am := range []gen.Amount{{Kind: "skip", Skip: 1}, {Kind: "skip", Skip: 3}, {Kind: "skiptake", Skip: 1, Take: 1}, {Kind: "top", Take: 1}, {Kind: "take", Take: 2}, {Kind: "last", Last: 1}} {
+		for _, l := range l1 {
+			progs = append(progs, &gen.Program{Commands: []gen.Command{{Amount: am, Body: []gen.Node{l}}}})
+			progs = append(progs, &gen.Program{Commands: []gen.Command{{Amount: am, Replace: true, Body: []gen.Node{l, gen.Loop{Min: 0, Max: 1, Form: "maybe", Body: gen.Lit{S: "b"}}}, With: []gen.WithItem{{Kind: "str", S: "x"}}}}})
+		}
+	}
 	// level 2: a loop over a level-1 loop, over (block level-1), and over (level-1 or block)
 	var l2 []gen.Node
 	for _, f := range forms {
@@ -120,7 +127,7 @@ func C10(r *drv.Run) {
 	progs := c10Programs(depth)
 	texts := allTexts("ab\n", tlen)
 	r.Exhaustive = true
-	r.Rule = fmt.Sprintf("bounded-progress form of termination: every Run must return within %d VM steps (hook H1), a budget fixed at >= 100x the largest step count the enumerated scope needs on the unchanged tree. Scope enumerated completely: all programs of loop-nesting depth <= %d over nullable building blocks (literal, not-literal, any, line/word/file anchors and their negations, the empty group, not-in, whole word/line; loop forms maybe, at least 0, at most 2, between 0 and 2, at least 1, greedy and fewest; loops over loops, over (block loop) and over (loop or block); nullable bodies in subroutines called from loops; recursion guarded by each kind of consuming element: literal, not-literal, any, class, negated class, not-in, in) x all %d inputs over {a,b,\\n} up to length %d; plus seeded random deeper programs on inputs <= 8 bytes (there an over-budget run is skipped, not judged: crashes and guard trips still count). Non-trivial = the program contains an optional loop whose body can match the empty string and the run executed a loop instruction; distinct by (program, input).", budget, depth, len(texts), tlen)
+	r.Rule = fmt.Sprintf("bounded-progress form of termination: every Run must return within %d VM steps (hook H1), a budget fixed at >= 100x the largest step count the enumerated scope needs on the unchanged tree. Scope enumerated completely: all programs of loop-nesting depth <= %d over nullable building blocks (literal, not-literal, any, line/word/file anchors and their negations, the empty group, not-in, whole word/line; loop forms maybe, at least 0, at most 2, between 0 and 2, at least 1, greedy and fewest; every level-1 program also under skip / skip-take / top / take / last clauses, as find and as replace; loops over loops, over (block loop) and over (loop or block); nullable bodies in subroutines called from loops; recursion guarded by each kind of consuming element: literal, not-literal, any, class, negated class, not-in, in) x all %d inputs over {a,b,\\n} up to length %d; plus seeded random deeper programs on inputs <= 8 bytes (there an over-budget run is skipped, not judged: crashes and guard trips still count). Non-trivial = the program contains an optional loop whose body can match the empty string and the run executed a loop instruction; distinct by (program, input).", budget, depth, len(texts), tlen)
 	r.Assumptions = []string{
 		"unbounded 'always terminates' is restated as 'returns within the step budget'; max observed steps are in the evidence so the margin is visible",
 		"recursion only behind a consumed byte; no process-code loops",
